@@ -2019,6 +2019,15 @@ func (h *fsmHandler) established(ctx context.Context) (bgp.FSMState, *fsmStateRe
 
 	fsm.gracefulRestartTimer.Stop()
 
+	// a NOTIFICATION queued while no session was established (an
+	// administrative reset or shutdown of a peer that was down, or an error
+	// reported by the receive loop of the previous session after it ended)
+	// must not tear down this new session
+	select {
+	case <-fsm.notification:
+	default:
+	}
+
 	convertNotification := func(m *bgp.BGPMessage) *bgp.BGPMessage {
 		// RFC8538 defines a Hard Reset notification subcode which
 		// indicates that the BGP speaker wants to reset the session
